@@ -33,6 +33,12 @@ def run(job):
         except (ValueError, TypeError) as e:
             obs["bad_enum"] = "rejected"
         obs["minimal"] = cls.from_dict({"id": 1}).to_dict()
+        obs["enum_values"] = {}
+        for v in ("json", 'say "hi"', "C:\\temp", "two\nlines"):
+            try:
+                obs["enum_values"][v] = cls.from_dict({"id": 1, "format": v}).to_dict().get("format")
+            except (ValueError, TypeError) as e:
+                obs["enum_values"][v] = "rejected"
         seen = []
         served = {"status": 200}
 
